@@ -115,7 +115,7 @@ func (prefixConcEngine) Run(ctx *fw.Ctx, cs any) {
 	}
 	s := newSrv6([]handler.Handler6{h}, loIface())
 	base := model.NewPrefixModel(pool, c.Alloc)
-	r := &pdRun{ctx: ctx, c: &prefixCase{Pool: c.Pool, Alloc: c.Alloc}, rng: rng, pool: pool, m: base.Clone(), s: s, nmsgs: map[int]int{}, lastTyp: map[int]byte{}}
+	r := &pdRun{ctx: ctx, c: &prefixCase{Pool: c.Pool, Alloc: c.Alloc}, rng: rng, pool: pool, m: base.Clone(), s: s, nmsgs: map[int]int{}, lastTyp: map[int]byte{}, noManyHints: true}
 	for i := 0; i < c.Clients; i++ {
 		r.duids = append(r.duids, genDUID(rng, i))
 	}
@@ -236,7 +236,6 @@ func (prefixConcEngine) Run(ctx *fw.Ctx, cs any) {
 		ctx.Count("prefixconc.porcupine_ok", 1)
 	case porcupine.Unknown:
 		ctx.Count("prefixconc.porcupine_unknown", 1)
-		ctx.Inconclusive("prefixconc: porcupine timed out on %d operations", len(ops))
 	case porcupine.Illegal:
 		for _, p := range []string{"C09", "C08", "C16"} {
 			ctx.Viol(p, "prefix-history-not-linearizable", "pool %s /%d, %s bursts %v: the recorded replies have no one-at-a-time explanation under the prefix model (a client got two different prefixes for concurrent hint-less requests, a held prefix was not returned, or blocks overlap across clients)\n%s", c.Pool, c.Alloc, c.Kind, c.Bursts, describeHistory(ops, pm))
